@@ -80,6 +80,16 @@ impl StaticsPool {
     pub fn find_by_ptr(&self, ptr: usize) -> Option<usize> {
         self.texts.iter().position(|t| t.as_ptr() as usize == ptr)
     }
+    /// Puts the pristine bytes back (after a modification has been reported), so that the following cases of this
+    /// process start from intact static texts again.
+    pub fn restore(&self) {
+        for (t, p) in self.texts.iter().zip(&self.pristine) {
+            if t.as_bytes() != p.as_bytes() {
+                // SAFETY: the pool texts are leaked heap allocations of exactly `p.len()` bytes, owned by the harness
+                unsafe { std::ptr::copy_nonoverlapping(p.as_ptr(), t.as_ptr() as *mut u8, p.len()) };
+            }
+        }
+    }
     pub fn all_pristine(&self) -> Option<usize> {
         self.texts.iter().zip(&self.pristine).position(|(t, p)| t.as_bytes() != p.as_bytes())
     }
